@@ -1030,7 +1030,9 @@ pub fn run_check(check: &dyn Check, tier: Tier, seed: u64) -> i32 {
             }
             continue;
         }
-        if f.signature.starts_with("harness-panic") {
+        // machinery trouble (a panic located in the harness, a wait that timed out on an overloaded
+        // machine, scratch-file I/O) is inconclusive, never a verdict about redb
+        if f.signature.starts_with("harness-panic") || f.signature == "harness-gate-timeout" || f.signature == "harness-io" {
             let path = write_replay(check, seed, tier, tape.as_ref(), f);
             println!("HARNESS-ERROR property={} {} replay={}", check.id(), f.msg, path);
             if exit == 0 {
